@@ -36,6 +36,8 @@ ATTR = [
  ("fix: Midpointer panicked on a burst", ["C15"]),
  ("fix: Wpcr panicked on bursts of 4 to 6", ["C15"]),
  ("fix: SigMFSource panicked on a truncated archive", ["C15"]),
+ ("fix: a full VectorSink busy-looped", ["C09"]),
+ ("fix: SignalSourceFloat/Complex busy-looped", ["C09"]),
 ]
 log = subprocess.run(["git", "-C", "/repo", "log", "--reverse", "--format=%h\t%s", "--grep", "^fix:"],
                      capture_output=True, text=True).stdout.strip().splitlines()
